@@ -54,7 +54,7 @@ func globMatch(pat, s string) bool {
 // newFuncCtx prepares the verification of one function.
 func (e *Engine) newFuncCtx(key string, ct *Contract) *FuncCtx {
 	fn := e.funcs[key]
-	fx := &FuncCtx{eng: e, fn: fn, ct: ct, compSort: map[string]string{}, trusted: map[string]bool{}}
+	fx := &FuncCtx{eng: e, fn: fn, ct: ct, compSort: map[string]string{}, trusted: map[string]bool{}, fnKey: key}
 	return fx
 }
 
@@ -107,6 +107,12 @@ func (e *Engine) verifyFunc(key string, ct *Contract, workRoot string, timeoutMs
 	}
 	fx.u.bodyText = body.String()
 	fx.preludeText = fx.u.prelude()
+	genMs := time.Since(start).Milliseconds()
+	defer func() {
+		if os.Getenv("GVC_TIMING") != "" {
+			fmt.Fprintf(os.Stderr, "timing %s: gen %d ms, total %d ms, %d obligations, %d lines\n", key, genMs, time.Since(start).Milliseconds(), len(fx.obls), len(fx.lines))
+		}
+	}()
 	dir := filepath.Join(workRoot, sanitize(key))
 	os.MkdirAll(dir, 0o755)
 	probes := fx.modelProbes()
@@ -220,6 +226,9 @@ func runCheck(o checkOpts) int {
 	for range keys {
 		<-done
 	}
+	if os.Getenv("GVC_TIMING") != "" {
+		fmt.Fprintf(os.Stderr, "timing phase verify done at %.1fs\n", time.Since(start).Seconds())
+	}
 	// second chance for undecided obligations: one at a time, with a longer
 	// timeout, when the machine is no longer saturated by the parallel phase
 	retried := 0
@@ -234,10 +243,28 @@ func runCheck(o checkOpts) int {
 					isKnown = true
 				}
 			}
-			if r != nil && r.Status == "undecided" && retried < 12 && !isKnown {
+			if r != nil && len(r.Ob.Tags) > 0 && o.prop != "ALL" {
+				rel := false
+				for _, t := range r.Ob.Tags {
+					if t == o.prop {
+						rel = true
+					}
+				}
+				if !rel {
+					isKnown = true // another property's obligation: decided there
+				}
+			}
+			if r != nil && r.Ob.AltGrp != "" {
+				isKnown = true // alternatives are expected to fail except one
+			}
+			if r != nil && r.Status == "undecided" && retried < 6 && !isKnown {
 				retried++
 				dir := filepath.Join(workRoot, sanitize(rep.Key))
-				nr := solve(dir, 90000+i, rep.Fx, r.Ob, rep.Fx.modelProbes(), timeoutMs*4, rep.Fx.u.strings)
+				t0 := time.Now()
+				nr := solve(dir, 90000+i, rep.Fx, r.Ob, rep.Fx.modelProbes(), timeoutMs*5/2, rep.Fx.u.strings)
+				if os.Getenv("GVC_TIMING") != "" {
+					fmt.Fprintf(os.Stderr, "timing retry %s -> %s by %s in %.1fs\n", r.Ob.Name, nr.Status, nr.Solver, time.Since(t0).Seconds())
+				}
 				if nr.Status == "discharged" || nr.Status == "refuted" {
 					nr.Ms += r.Ms
 					rep.Results[i] = nr
@@ -247,6 +274,9 @@ func runCheck(o checkOpts) int {
 				}
 			}
 		}
+	}
+	if os.Getenv("GVC_TIMING") != "" {
+		fmt.Fprintf(os.Stderr, "timing phase retry done at %.1fs (%d retried)\n", time.Since(start).Seconds(), retried)
 	}
 	// bounded stand-ins and extra checks registered for this property
 	extra := runExtras(eng, o)
@@ -277,6 +307,9 @@ func runCheck(o checkOpts) int {
 	}
 	if len(eng.specs.Errors) > 0 {
 		violate("spec-errors", "contract files do not parse:\n"+strings.Join(eng.specs.Errors, "\n")+"\n", true)
+	}
+	if len(eng.immutErr) > 0 {
+		violate("immutable-fields", "obligation: fields declared immutable are written only by their initialisers\n"+strings.Join(eng.immutErr, "\n")+"\n", true)
 	}
 	if len(keys) == 0 && len(extra) == 0 {
 		violate("no-carriers", "no function under contract carries property "+o.prop+"\n", true)
@@ -383,8 +416,16 @@ func runCheck(o checkOpts) int {
 					continue
 				}
 			}
-			if waiver, ok := rep.Fx.ct.Unproved[r.Ob.Label]; ok && r.Status != "discharged" {
-				assumptions = append(assumptions, fmt.Sprintf("unproved site %s (waived: %s)", r.Ob.Name, waiver))
+			waived := false
+			if r.Status != "discharged" {
+				for pat, waiver := range rep.Fx.ct.Unproved {
+					if globMatch(pat, r.Ob.Label) {
+						assumptions = append(assumptions, fmt.Sprintf("unproved site %s (waived: %s)", r.Ob.Name, waiver))
+						waived = true
+					}
+				}
+			}
+			if waived {
 				continue
 			}
 			// known findings
